@@ -416,6 +416,8 @@ func (p *Parser) atStatementEnd() bool {
 		return true
 	case SemiColon:
 		p.consume(SemiColon)
+		// remember that the ';' ended the statement: callers ask more than once
+		p.didEndStatement = true
 		return true
 	default:
 		return false
